@@ -85,6 +85,12 @@ def step (d : DSt) (ws : List String) : DSt × String :=
     -- specification: every method of a released cluster dedicated client answers the recycled error
     -- (Close is void), the next session keeps its hooks and receives its message
     (d, (if meth == "close" then "void" else "recycled") ++ " next-session=intact")
+  | ["blocking", early] =>
+    -- model: is the wire of a shared-client blocking call still in the pool afterwards
+    (d, if blockingKeepsWire (early == "early=1") then "kept" else "discarded")
+  | "!fresh" :: _ =>
+    -- specification: a connection handed to a dedicated client has no command of anybody else pending
+    (d, "pending=0 served=ok")
   | "cret" :: rest =>
     -- end-to-end line: only the returned value is observable
     match cstepLine d.cst rest with
